@@ -491,8 +491,9 @@ class Ledger:
                     if src_[0] == "call" and src_[2] == "next" and ("::<Take as " in src_[1] or "::<ChunksExact as " in src_[1]) \
                             and dst["k"] == "array":
                         ks = [rg.op_range(t2["args"][1]) for bi2, t2, c2 in mir.iter_calls(b, name="chunks_exact")]
-                        nexts = [c2 for bi2, t2, c2 in mir.iter_calls(b, name="next")]
-                        if ks and all(k_ is not None and k_[0] == k_[1] == dst.get("len") for k_ in ks) and len(nexts) == 1:
+                        nexts = [df.strip(pv.call_tree(t2))[1] for bi2, t2, c2 in mir.iter_calls(b, name="next")]
+                        if ks and all(k_ is not None and k_[0] == k_[1] == dst.get("len") for k_ in ks) and nexts and \
+                                all("::<Take as " in n_ or "::<ChunksExact as " in n_ for n_ in nexts):
                             return "A2 item of a chunks_exact(%d) iterator (every chunks_exact of this body has that size): " \
                                    "exactly %d bytes" % (ks[0][0], ks[0][0])
                 if rs[2] == "try_into" and exact_len(b, pv, rs[3][0]) is not None:
@@ -866,12 +867,41 @@ def from_fn_len(parent, clos, param):
     return False
 
 
+def cleared_list_push(b, pv, t, c, tr):
+    """push into a list reached through a reference that was clear()ed before a loop over take(list.capacity()): one
+    push per iteration, at most capacity iterations, starting from an empty list"""
+    g = mir.cfg(b)
+    bi = None
+    for bj, t2, c2 in mir.iter_calls(b, name="push"):
+        if t2 is t:
+            bi = bj
+    if bi is None or not g.succ[bi] or bi not in g.reachable_from(g.succ[bi][0]):
+        return None
+    lst = df.canon(tr, b)
+    pushes = [bj for bj, t2, c2 in mir.iter_calls(b, name="push") if df.canon(pv.op_tree(t2["args"][0]), b) == lst]
+    clears = [bj for bj, t2, c2 in mir.iter_calls(b, name="clear") if df.canon(pv.op_tree(t2["args"][0]), b) == lst]
+    takes = [(bj, t2) for bj, t2, c2 in mir.iter_calls(b, name="take") if "iter" in c2["path"]]
+    if len(pushes) != 1 or not clears or len(takes) != 1:
+        return None
+    n_ = df.canon(pv.op_tree(takes[0][1]["args"][1]), b)
+    lits = c.must_literals(bi)
+    driven = any(l_[0] == "variant" and set(l_[2]) == {"Some"} and df.strip(l_[1])[0] == "call" and
+                 df.strip(l_[1])[2] == "next" and "::<Take as " in df.strip(l_[1])[1] for l_ in lits)
+    if driven and n_ == "capacity(%s)" % lst and any(g.dominates(cb_, takes[0][0]) for cb_ in clears) and \
+            g.dominates(takes[0][0], bi):
+        # nothing between clear() and the loop may push: only one push site exists, and it is inside the loop
+        return "A6 one push per iteration of a loop over take(capacity(list)) into a list cleared before the loop"
+    return None
+
+
 def fresh_list_push(b, pv, t, c):
     """ArrayVec::push into a list created by ArrayVec::new() in this body with at most CAP pushes on any path"""
     p = mir.op_place(t["args"][0])
     if p is None:
         return None
     tr = df.strip(pv.op_tree(t["args"][0]))
+    if tr[0] == "path" and tr[1][0] != "local":
+        return cleared_list_push(b, pv, t, c, tr)
     if tr[0] != "path" or tr[1][0] != "local":
         return None
     l = tr[1][1]
